@@ -236,6 +236,16 @@ var ramps = []rampT{
 	{"pcall-recursion", func(n int) string {
 		return fmt.Sprintf("local function f(k) if k == 0 then return 0 end local ok, v = pcall(f, k - 1) if not ok then error(v, 0) end return v + 1 end return f(%d)", n)
 	}, nil},
+	// a caught overflow leaves nothing behind: the depth that can be reached is the same afterwards
+	{"overflow-storm-pcall", func(n int) string {
+		return fmt.Sprintf("local function depth() local function r(k) local ok, v = pcall(r, k + 1) if ok then return v end return k end return r(1) end local d1 = depth() for i = 1, %d do depth() end return d1 == depth(), d1 > 50", n%40+1)
+	}, func(n int) string { return "return(true,true)" }},
+	{"overflow-storm-metamethod", func(n int) string {
+		return fmt.Sprintf("local function depth() local d = 0 local t = setmetatable({}, {__index = function(t, k) d = d + 1 return t[k] end}) pcall(function() return t.x end) return d end local d1 = depth() for i = 1, %d do depth() end return d1 == depth(), d1 > 50", n%40+1)
+	}, func(n int) string { return "return(true,true)" }},
+	{"overflow-storm-gsub", func(n int) string {
+		return fmt.Sprintf("local function depth() local d = 0 local function r() d = d + 1 return (string.gsub('a', 'a', r)) end pcall(r) return d end local d1 = depth() for i = 1, %d do depth() end return d1 == depth(), d1 > 50", n%40+1)
+	}, func(n int) string { return "return(true,true)" }},
 	{"index-metamethod-recursion", func(n int) string {
 		return fmt.Sprintf("local d = 0 local t = setmetatable({}, {__index = function(t, k) d = d + 1 if d >= %d then return d end return t[k] end}) return t.x", n)
 	}, func(n int) string { return fmt.Sprintf("return(%d)", n) }},
